@@ -340,9 +340,9 @@ def r17_7(cx):
 
 
 def r17_8(cx):
-    """what the delivered bytes stand on: no other arena hands out the same bytes (R5.9), anchored input is backed until drained (R5.3)"""
+    """what the delivered bytes stand on: no other arena hands out the same bytes (R5.9), anchored input is backed until drained and its anchors are appended, never overwritten (R5.3, R5.7)"""
     from . import c05
-    compose(cx, [('R5.9', c05.r5_9), ('R5.3', c05.r5_3)])
+    compose(cx, [('R5.9', c05.r5_9), ('R5.3', c05.r5_3), ('R5.7', c05.r5_7)])
 
 
 RULES = [('R17.1', r17_1), ('R17.2', r17_2), ('R17.3', r17_3), ('R17.4', r17_4), ('R17.5', r17_5), ('R17.6', r17_6), ('R17.7', r17_7), ('R17.8', r17_8)]
